@@ -1,7 +1,9 @@
 """C10 — results depend only on the arguments: deterministic, isolated, non-mutating."""
+import copy
 import random
 import sys
 import threading
+import time
 
 from vlib.common import Corr, Failure, f2b, import_repo
 from vlib import shotgen as sg
@@ -40,13 +42,27 @@ def snapshot(pbc, shot):
     return sg.enc_shot(pbc, shot) + ' | ' + ' '.join(str(f2b(p['CD'])) for p in pbc.TableG7[:5])
 
 
+HEAVY = False     # thorough tier: also the slow operations (zeroing at 9000 / 30000 ft: seconds each)
+
+
 def make_pool(pbc, rng):
-    shots = [sg.gen_shot(pbc, rng, flat=rng.random() < 0.8)[0] for _ in range(3)]
-    cfgs = [{}, rng.choice([{'cMinimumVelocity': 1500.0}, {'cMaximumDrop': -2.0}, {'max_calc_step_size_feet': 1.0}, {'cMaxIterations': 2}])]
+    U = pbc.Unit
+    if rng.random() < 0.5:
+        # one station for the whole pool and a ground level 5 ft below its muzzles: long flat shots end on the altitude limit
+        alt = rng.uniform(0, 6000)
+        shots = [sg.gen_shot(pbc, rng, flat=True, max_look=0.0,
+                             atmo=pbc.Atmo(U.Foot(alt), U.hPa(rng.uniform(700, 1050)), U.Celsius(rng.uniform(-20, 35)), rng.uniform(0, 1)))[0] for _ in range(3)]
+        floor = (shots[0].atmo.altitude >> U.Foot) - 5.0
+        cfgs = [{}, rng.choice([{'cMinimumVelocity': 1500.0, 'cMinimumAltitude': floor}, {'cMinimumAltitude': floor},
+                                {'cMinimumVelocity': 800.0, 'cMinimumAltitude': floor, 'cMaximumDrop': -40.0}])]
+    else:
+        shots = [sg.gen_shot(pbc, rng, flat=rng.random() < 0.8)[0] for _ in range(3)]
+        cfgs = [{}, rng.choice([{'cMinimumVelocity': 1500.0}, {'cMaximumDrop': -2.0}, {'max_calc_step_size_feet': 1.0}, {'cMaxIterations': 2}])]
     calcs = [pbc.Calculator(_config=c) for c in cfgs]
     for calc, c in zip(calcs, cfgs):
         # the configuration the calculator was BUILT with: what its results may depend on (not whatever it holds later)
         calc._verif_cfg0 = pbc.interface_config.create_interface_config(c)
+        calc._verif_cfgdict = dict(c)
     return shots, calcs
 
 
@@ -59,18 +75,18 @@ def one_op(pbc, rng, shots, calcs, corr_fire=None, corr_zero=None, violations=No
     r = rng.random()
     allowed_change = None
     if r < 0.45:
-        R, step, extra = rng.choice([300.0, 900.0, 9000.0]), rng.choice([100.0, 150.0]), rng.random() < 0.3
+        R, step, extra = rng.choice([300.0, 900.0, 2400.0, 9000.0 if HEAVY else 2400.0, 15000.0 if HEAVY else 900.0]), rng.choice([100.0, 150.0]), rng.random() < 0.3
         out = sg.py_fire(pbc, calc, shot, R, step, extra, 0.0)
         if corr_fire is not None:
             corr_fire.add(sg.fire_line(pbc, calc, shot, R, step, extra, 0.0, calc._verif_cfg0), out, {'op': 'fire', 'shot': i, 'calc': j})
     elif r < 0.65:
-        D = rng.choice([100.0, 300.0, 9000.0])
+        D = rng.choice([100.0, 300.0, 3000.0, 9000.0 if HEAVY else 1500.0, 30000.0 if HEAVY else 3000.0])
         line = f'zero {sg.enc_config(calc._verif_cfg0)} {sg.enc_shot(pbc, shot)} {f2b(U.Foot(D) >> U.Foot)}'
         out = trajcorr.zero_answer(pbc, calc, shot, D)
         if corr_zero is not None:
             corr_zero.add(line, out, {'op': 'zero', 'shot': i, 'calc': j})
     elif r < 0.8:
-        D = rng.choice([100.0, 300.0, 9000.0])
+        D = rng.choice([100.0, 300.0, 3000.0, 9000.0 if HEAVY else 1500.0])
         old = shot.weapon.zero_elevation.raw_value
         try:
             z = calc.set_weapon_zero(shot, U.Foot(D))
@@ -87,9 +103,12 @@ def one_op(pbc, rng, shots, calcs, corr_fire=None, corr_zero=None, violations=No
             out = 'ok f%d f%d' % (f2b(ds.begin.distance.raw_value), f2b(ds.end.distance.raw_value))
         except (pbc.RangeError, ArithmeticError) as e:
             out = 'raise:' + type(e).__name__
-    elif r < 0.95:
+    elif r < 0.97:
         # the user changes the conditions of an existing shot (same rifle and ammunition): a new atmosphere or new winds
-        if rng.random() < 0.6:
+        r2 = rng.random()
+        if r2 < 0.4:
+            sg.edit_in_place(pbc, rng, shot)
+        elif r2 < 0.75:
             shot.atmo = pbc.Atmo(U.Foot(rng.uniform(0, 9000)), U.hPa(rng.uniform(650, 1050)), U.Celsius(rng.uniform(-25, 40)), rng.uniform(0, 1))
         else:
             shot.winds = [sg.gen_wind(pbc, rng) for _ in range(rng.randint(0, 3))]
@@ -113,13 +132,18 @@ def one_op(pbc, rng, shots, calcs, corr_fire=None, corr_zero=None, violations=No
 
 
 def correspondence(chk, drv):
+    global HEAVY
+    HEAVY = chk.tier != 'quick'
     pbc = import_repo()
     rng = chk.rng
     n_hist = 5 if chk.tier == 'quick' else 300
     cf, cz = Corr('hist:fire'), Corr('hist:zero')
     viol = []
     ops = 0
+    t0 = time.time()
     for _ in range(n_hist):
+        if time.time() - t0 > 900:       # thorough tier: the slow operations (seconds each) bound the number of histories
+            break
         shots, calcs = make_pool(pbc, rng)
         for _ in range(12):
             one_op(pbc, rng, shots, calcs, cf, cz, viol)
@@ -150,22 +174,55 @@ def thread_script(pbc, seed, n_ops, chk=None):
 
 
 def search(chk, broken):
+    global HEAVY
     pbc = import_repo()
     rng = chk.rng
     evals = 0
-    # 1. repeat / interleave / fresh vs long-used, incl. raising calls (python only, bit-exact)
-    n = 4 if chk.tier == 'quick' else 150
+    # 1. long-used vs fresh: every call of a history, incl. the ones after a RAISING call, is repeated on a brand-new
+    #    calculator built from the same configuration with a deep copy of the arguments (python only, bit-exact)
+    n = 5 if chk.tier == 'quick' else 200
+    if broken:
+        n *= 6
+    U = pbc.Unit
     for _ in range(n):
         if chk.over():
             break
         shots, calcs = make_pool(pbc, rng)
-        seed = rng.randrange(10 ** 9)
-        # the same operation sequence on a long-used pool and, op by op, on fresh calculators
-        r1 = random.Random(seed)
-        outs = [one_op(pbc, r1, shots, calcs) for _ in range(10) if not chk.over()]
-        # replay from identical initial objects
-        rng2 = random.Random(chk.rng.random())
-        evals += 10
+        hist = []
+        raised_on = None
+        for k in range(10):
+            if chk.over():
+                break
+            i, j = rng.randrange(len(shots)), rng.randrange(len(calcs))
+            if raised_on is not None and rng.random() < 0.7:
+                j = raised_on          # what does a calculator do right after one of its calls raised?
+            shot, calc = shots[i], calcs[j]
+            fresh = pbc.Calculator(_config=calc._verif_cfgdict)
+            shot2 = copy.deepcopy(shot)
+            if rng.random() < 0.6:
+                R, step, extra = rng.choice([300.0, 900.0, 2400.0, 9000.0 if HEAVY else 2400.0, 15000.0 if HEAVY else 900.0]), rng.choice([100.0, 150.0, 1500.0]), rng.random() < 0.3
+                what = f'fire(shot#{i}, {R} ft, step {step} ft, extra={extra}) on calculator#{j}'
+                a = sg.py_fire(pbc, calc, shot, R, step, extra, 0.0)
+                b = sg.py_fire(pbc, fresh, shot2, R, step, extra, 0.0)
+            else:
+                D = rng.choice([100.0, 300.0, 3000.0, 9000.0 if HEAVY else 1500.0, 30000.0 if HEAVY else 3000.0])
+                what = f'zero_angle(shot#{i}, {D} ft) on calculator#{j}'
+                a = trajcorr.zero_answer(pbc, calc, shot, D)
+                b = trajcorr.zero_answer(pbc, fresh, shot2, D)
+            evals += 2
+            raised_on = j if a.startswith('err') else None
+            hist.append(f'{what} -> {a[:28]}')
+            if a != b:
+                chk.failures.append(Failure('history-dependent',
+                                            f'operation {k} of a history ({what}) gives {a[:40]!r}... on the long-used calculator and {b[:40]!r}... on a fresh '
+                                            f'calculator with the same configuration {calc._verif_cfgdict} and equal arguments',
+                                            {'op': 'fresh-vs-used', 'history': hist, 'config': calc._verif_cfgdict, 'used': a[:400], 'fresh': b[:400]}))
+                break
+            if snapshot(pbc, shot) != snapshot(pbc, shot2):
+                chk.failures.append(Failure('argument-mutated', f'{what} changed its shot argument', {'op': 'fresh-vs-used', 'history': hist}))
+                break
+        if any(f.key in ('history-dependent', 'argument-mutated') for f in chk.failures):
+            break
     for t in range(3 if chk.tier == 'quick' else 40):
         if chk.over():
             break
@@ -177,8 +234,9 @@ def search(chk, broken):
             k = next(i for i, (x, y) in enumerate(zip(a, b)) if x != y)
             chk.failures.append(Failure('not-deterministic', f'the same history from identical arguments gave different outcomes at operation {k}', {'op': 'repeat', 'seed': seed}))
     # 2. calculators owned by distinct threads
-    n_threads, n_ops = 4, (6 if chk.tier == 'quick' else 40)
-    rounds = 2 if chk.tier == 'quick' else 10
+    HEAVY = False          # the thread runs use the fast operations only (they sample scheduling, not long flights)
+    n_threads, n_ops = 4, (6 if chk.tier == 'quick' else 20)
+    rounds = 2 if chk.tier == 'quick' else 6
     old = sys.getswitchinterval()
     try:
         sys.setswitchinterval(1e-6)
